@@ -456,6 +456,17 @@ pub fn world(rng: &mut Rng, stakes: &[u64], own: u64, with_waits: bool, with_old
     }
     let _ = own;
     rng.shuffle(&mut groups);
+    // adversarial arrival orders on top of the uniform shuffle: (a) every skip certificate / skip vote first,
+    // then everything else from the highest slot down (old blocks are certified AFTER the windows behind them
+    // were skipped); (b) strictly descending slots; (c) strictly ascending slots
+    let slot_of = |g: &Vec<Op>| -> u64 { g.iter().map(|o| match o { Op::Vote { slot, .. } | Op::Cert { slot, .. } => *slot, Op::Block { b, .. } => b.0, _ => 0 }).max().unwrap_or(0) };
+    let is_skip = |g: &Vec<Op>| -> bool { g.iter().all(|o| matches!(o, Op::Vote { kind: VK::Skip | VK::SkipFb, .. } | Op::Cert { kind: CK::Skip, .. })) };
+    match rng.below(12) {
+        0 | 1 => { groups.sort_by_key(|g| (if is_skip(g) { 0u64 } else { 1 }, u64::MAX - slot_of(g))); }
+        2 => { groups.sort_by_key(|g| u64::MAX - slot_of(g)); }
+        3 => { groups.sort_by_key(|g| slot_of(g)); }
+        _ => {}
+    }
     let mut ops: Vec<Op> = Vec::new();
     for g in groups {
         ops.extend(g);
@@ -541,7 +552,7 @@ fn gen_world(seed: u64, tier: Tier, sel: u64, salt: u64, nq: usize, nt: usize, w
     finish("pool", sel, cases, descr, sigs, stats)
 }
 
-const WORLD_RULE: &str = "consistent multi-window histories (4-14 slots): a ground-truth chain fixes each slot's fate (chain block or skipped, incl. whole skipped windows); chain blocks are fast-finalized, slow-finalized (notar + final), only notarized / notar-fallback certified (sometimes additionally skip-certified) or uncertified; skipped slots get skip certificates and sometimes a competing certified block; block-parent registrations for most blocks; every certificate is delivered either as a received certificate or as the votes forming it; all groups shuffled (final before notar, children before parents, gaps, certificates for already decided slots)";
+const WORLD_RULE: &str = "consistent multi-window histories (4-14 slots): a ground-truth chain fixes each slot's fate (chain block or skipped, incl. whole skipped windows); chain blocks are fast-finalized, slow-finalized (notar + final), only notarized / notar-fallback certified (sometimes additionally skip-certified) or uncertified; skipped slots get skip certificates and sometimes a competing certified block; block-parent registrations for most blocks; every certificate is delivered either as a received certificate or as the votes forming it; all groups shuffled (final before notar, children before parents, gaps, certificates for already decided slots), a third of the histories additionally in adversarial orders (all skips first then old blocks from the highest slot down; strictly descending; strictly ascending)";
 
 pub fn gen_c07(seed: u64, tier: Tier) -> CaseSet {
     gen_world(seed, tier, 7, 0xC07, 500, 10000, true, false, false,
